@@ -52,6 +52,10 @@ class SlotStr(AnySymbolicStr, CrossHairValue):
 
     def __ch_realize__(self):
         from .z3str import PINNED
+        import os
+        if os.environ.get("TRACE_REALIZE"):
+            import traceback
+            traceback.print_stack(limit=12)
 
         with NoTracing():
             sp = context_statespace()
@@ -120,9 +124,17 @@ class SlotStr(AnySymbolicStr, CrossHairValue):
                 k = ord(old)
                 out = []
                 for g, c in self.slots:
-                    hit = z3.And(g, c == k)
+                    if z3.is_int_value(c):
+                        # constant slot: either never or always the pattern - no conditional expansion needed
+                        if c.as_long() != k:
+                            out.append((g, c))
+                        else:
+                            for ch in new:
+                                out.append((g, z3.IntVal(ord(ch))))
+                        continue
+                    hit = z3.simplify(z3.And(g, c == k))
                     if len(new) == 0:
-                        out.append((z3.And(g, c != k), c))
+                        out.append((z3.simplify(z3.And(g, c != k)), c))
                     else:
                         out.append((g, z3.If(c == k, ord(new[0]), c)))
                         for ch in new[1:]:
@@ -213,9 +225,11 @@ def run_reader(slots, step, init, final):
     """Fold a specification transducer over guarded slots; inactive slots leave the state unchanged."""
     st = dict(init)
     for g, c in slots:
+        if z3.is_false(g):
+            continue
         nxt = step(st, c)
         if z3.is_true(g):
-            st = nxt
+            st = {k: z3.simplify(nxt[k]) for k in st}
         else:
-            st = {k: z3.If(g, nxt[k], st[k]) for k in st}
+            st = {k: z3.simplify(z3.If(g, nxt[k], st[k])) for k in st}
     return final(st)
